@@ -44,13 +44,16 @@ class FlagEval:
         self.opaque = opaque
 
     def eval(self, e: ast.AST):
-        txt = None
-        try:
-            txt = ast.unparse(e)
-        except Exception:  # pragma: no cover
-            pass
-        if txt is not None and txt in self.env and not isinstance(e, ast.Name):
-            return self.env[txt]
+        if isinstance(e, (ast.Attribute, ast.Subscript, ast.Call)):
+            txt = getattr(e, "_txt_memo", None)
+            if txt is None:
+                try:
+                    txt = ast.unparse(e)
+                    e._txt_memo = txt
+                except Exception:  # pragma: no cover
+                    txt = None
+            if txt is not None and txt in self.env:
+                return self.env[txt]
         if isinstance(e, ast.Constant):
             return e.value
         if isinstance(e, ast.Name):
